@@ -68,6 +68,64 @@ def shared_context_part(ctx):
     ctx.notes["shared_context_schedules"] = n
 
 
+def counter_line_preemption_part(ctx):
+    """id allocation on real threads, preempted at LINE granularity: thread A is stopped (sys.settrace) after its k-th line inside the
+    SDK's threading module while it allocates an id on a shared context; thread B - which has allocated once before - allocates
+    again meanwhile (it must either wait for A or get a different value); for every k.  The values handed out must be pairwise
+    distinct and gap-free.  (The scheduler shims cannot preempt inside the counter's critical section: it holds no primitive.)"""
+    import sys as _sys
+    import threading as _t
+    from checks.policy_tables import _real_sdk
+    n = 0
+    with _real_sdk():
+        import aws_durable_execution_sdk_python.threading as sdk_thr
+        thr_file = sdk_thr.__file__
+        k = 0
+        while k < 80:
+            k += 1
+            counter = sdk_thr.OrderedCounter()
+            got, state = [], {"lines": 0, "stopped": False}
+            go_b, b_done, b_ready = _t.Event(), _t.Event(), _t.Event()
+
+            def run_b(counter=counter, got=got, go_b=go_b, b_done=b_done, b_ready=b_ready):
+                got.append(counter.increment())        # B's first allocation (warm-up)
+                b_ready.set()
+                go_b.wait(5)
+                got.append(counter.increment())        # ... and its second one, while A is inside its own
+                b_done.set()
+
+            def tracer(frame, event, arg, k=k, state=state, go_b=go_b, b_done=b_done):
+                if frame.f_code.co_filename != thr_file:
+                    return None
+                if event == "line":
+                    state["lines"] += 1
+                    if state["lines"] == k and not state["stopped"]:
+                        state["stopped"] = True
+                        go_b.set()
+                        b_done.wait(0.15)              # B may rightly be blocked behind A: go on after a moment
+                return tracer
+            tb = _t.Thread(target=run_b)
+            tb.start()
+            b_ready.wait(5)
+            _sys.settrace(tracer)
+            try:
+                got.append(counter.increment())
+            finally:
+                _sys.settrace(None)
+            go_b.set()
+            tb.join(5)
+            n += 1
+            ctx.case(("counter-line-preemption", k))
+            if sorted(got) != [1, 2, 3]:
+                ctx.violation("id-collision", f"two threads allocating on one context (the first preempted after line {k} of the SDK's "
+                                              f"threading module) were handed the values {sorted(got)} instead of 1, 2, 3",
+                              {"kind": "counter-line-preemption", "k": k})
+                break
+            if not state["stopped"]:
+                break
+    ctx.notes["counter_line_preemptions"] = n
+
+
 def user_threads_part(ctx):
     """child contexts opened concurrently by user threads on ONE context: whichever call index each gets, everything recorded inside a
     context must name THAT context's operation as its parent, ids are pairwise distinct, and the ids handed out are exactly
@@ -121,6 +179,7 @@ def run(ctx):
                         "completion order, in-process resubmission and re-invocation; ids unique per position, stable across invocations. "
                         "(Collision-freeness of blake2b itself is assumed.)")
     shared_context_part(ctx)
+    counter_line_preemption_part(ctx)
     user_threads_part(ctx)
     from checks import c19 as lockcheck
     ctx.notes["counter_gap_free"] = "per-context counters are OrderedCounter: see C19 (OrderedLock.tla CounterGapFree)"
